@@ -83,7 +83,7 @@ def imaging(
 
     # phase offset
     if phase is not None:
-        mod = mod * np.exp(1j * phase * np.pi / 180)
+        mod = mod * xp.exp(1j * xp.asarray(phase)[..., NAX] * np.pi / 180)
 
     # DFT
     kdim = min(pos.shape[-1], k.shape[-1])  # extra position components have no wavenumber
